@@ -3,7 +3,7 @@ from __future__ import annotations
 
 from typing import Dict, List, Optional, Set
 
-from .. import decoders, render, sym
+from .. import pipeline, decoders, render, sym
 from ..model import AnalysisError, Repo
 from ..report import Run
 from ..sym import T, const, param
@@ -90,8 +90,14 @@ def check(repo: Repo, run: Run) -> None:
     interp = sym.Interp(repo)
     pk = repo.cls("pykdebugparser", "PyKdebugParser")
 
+    # the line builders are found through the public listings (a renamed helper keeps its role)
+    BUILDER = {conv: pipeline.line_builder(repo, interp, public, conv)
+               for public, conv in (("formatted_kevents", "_format_kevent"), ("formatted_traces", "_format_trace"),
+                                    ("formatted_callstacks", "_format_callstack"))}
+
     # ------------------------------------------------------------------ R1
-    for name, expected in EXPECTED_COLUMNS.items():
+    for conv_name, expected in EXPECTED_COLUMNS.items():
+        name = BUILDER[conv_name]
         fn = repo.method("pykdebugparser", "PyKdebugParser", name)
         rec = interp.run(pk.module, fn, self_cls=pk)
         if rec.notes:
@@ -140,12 +146,11 @@ def check(repo: Repo, run: Run) -> None:
     # ------------------------------------------------------------------ R2 shared tables
     tp_t, pn_t = T("attr", (SELF, "threads_pids")), T("attr", (SELF, "pids_names"))
     init = interp.run(pk.module, pk.methods["__init__"], self_cls=pk)
-    import ast as _ast
-    fresh = set()
-    for st_ in _ast.walk(pk.methods["__init__"]):
-        if isinstance(st_, _ast.Assign) and isinstance(st_.targets[0], _ast.Attribute) and isinstance(st_.value, _ast.Dict) \
-                and not st_.value.keys:
-            fresh.add(st_.targets[0].attr)
+    def _empty_dict(v: T) -> bool:
+        return (v.op == "dict" and not v.a[0]) or (v.op == "call" and v.a[0] == T("builtin", ("dict",)) and not v.a[1] and not v.a[2])
+    stores = [e for e in init.effects if e.kind == "attr-store" and (e.path or e.base) == SELF and e.value is not None
+              and _empty_dict(e.value) and not e.pc and e.alias is None]
+    fresh = {e.key for e in stores}
     run.ob("R2", MOD, "PyKdebugParser.__init__", "tables created once as fresh dicts", {"threads_pids", "pids_names"} <= fresh,
            "PyKdebugParser.__init__ does not create threads_pids and pids_names as two fresh dicts", nontrivial=False)
     n_sites = 0
@@ -211,7 +216,15 @@ def check(repo: Repo, run: Run) -> None:
     # ------------------------------------------------------------------ R3 unknown thread
     fp = pk.methods.get("_format_process")
     if fp is None:
-        raise AnalysisError("anchor vanished: PyKdebugParser._format_process")
+        # the helper every line builder calls with the emitting thread's id
+        kb_fn = pk.methods[BUILDER["_format_kevent"]]
+        kb_rec = interp.run(pk.module, kb_fn, self_cls=pk)
+        tid_arg = T("attr", (param(kb_fn.args.args[1].arg), "tid"))
+        cands = [c.func.a[1] for c in kb_rec.calls if c.func.op == "attr" and c.func.a[0] == SELF and c.args == (tid_arg,)
+                 and c.func.a[1] in pk.methods and c.where.endswith("." + kb_fn.name)]
+        fp = pk.methods.get(cands[0]) if cands else None
+    if fp is None:
+        raise AnalysisError("anchor vanished: the process-column helper of PyKdebugParser (_format_process)")
     rec = interp.run(pk.module, fp, self_cls=pk)
     tid = param(fp.args.args[1].arg)
     ret = rec.return_term()
@@ -242,7 +255,8 @@ def check(repo: Repo, run: Run) -> None:
                          "else a text with the tid and no table lookup` with one sentinel S: an undeclared thread is attributed to "
                          "a process", facts={"term": detail}, line=fp.lineno,
            witness="a thread id absent from the thread map (and a pid equal to the mismatched sentinel)")
-    for name, tid_src in (("_format_kevent", "tid"), ("_format_trace", ("ktraces", 0, "tid")), ("_format_callstack", "tid")):
+    for conv_name, tid_src in (("_format_kevent", "tid"), ("_format_trace", ("ktraces", 0, "tid")), ("_format_callstack", "tid")):
+        name = BUILDER[conv_name]
         fn = pk.methods[name]
         rec = interp.run(pk.module, fn, self_cls=pk)
         obj = param(fn.args.args[1].arg)
